@@ -111,6 +111,11 @@ func c06Eval(e *Env, m *refplay.Model, c *playCase, report bool) bool {
 	if d := diffMerged(merged(f1), merged(fn)); d != "" {
 		return fail("C06/merge-differs/"+c.Path, fmt.Sprintf("%s: --track %d differs from --track 1 once merged: %s", c02Durations(c), c.Cfg.Tracks, d))
 	}
+	if int64(fn.Division) != m.T {
+		mm := *m
+		mm.T = int64(fn.Division)
+		m = &mm
+	}
 	_, total, amb, err := m.Expect(c.Insts, c.Cfg.Flags, nil)
 	if err != nil {
 		panic("C06 harness: " + err.Error())
